@@ -231,6 +231,9 @@ func (fc *FnCtx) havocAll(why string) {
 			return prev.get(r, s)
 		}
 		c := qsym(fmt.Sprintf("%s@h%d", r, n))
+		if !fc.declared[c] {
+			fc.regionRangeAxiom(r, c)
+		}
 		fc.declare(c, s)
 		old := prev.get(r, s)
 		for _, k := range keeps {
